@@ -39,7 +39,7 @@ Descs == { [inp |-> i, out |-> o, errpos |-> e, special |-> ""] : i \in Sides, o
                                                                           s \in {"mixedin", "mixedout", "mixedin2", "mixedout2"}, e \in {"none", "final"} }
          \* a variadic final parameter is a parameter of the slice type
          \cup { [inp |-> PosSide(ts), out |-> o, errpos |-> "none", special |-> "variadic"] : ts \in {<<"T1">>, <<"T2", "T1">>, <<"T1", "T1">>}, o \in {NoSide, PosSide(<<"T2">>)} }
-         \cup { [inp |-> NoSide, out |-> NoSide, errpos |-> "none", special |-> s] : s \in {"nonfunc", "nil", "S1", "S2", "S3", "S4", "S5", "S6", "S7", "S8"} }
+         \cup { [inp |-> NoSide, out |-> NoSide, errpos |-> "none", special |-> s] : s \in {"nonfunc", "nil", "ptrfunc", "S1", "S2", "S3", "S4", "S5", "S6", "S7", "S8"} }
 
 Lower(n) == CASE n = "Alpha" -> "alpha" [] n = "BETA" -> "beta" [] n = "Ren" -> "ren" [] OTHER -> n
 FieldValue(f) ==
@@ -65,7 +65,7 @@ Static(s) == CASE s = "S1" -> [ok |-> TRUE, inp |-> <<V("alpha", "T1", "")>>, ou
                [] OTHER   -> [ok |-> TRUE, inp |-> <<V("", "T1", ""), V("", "SB", "")>>, out |-> <<V("", "SB", "")>>]  \* func(T1, SB) SB
 
 Expected(d) ==
-  CASE d.special \in {"nonfunc", "nil", "mixedin", "mixedout", "mixedin2", "mixedout2"} -> [ok |-> FALSE, inp |-> <<>>, out |-> <<>>]
+  CASE d.special \in {"nonfunc", "nil", "ptrfunc", "mixedin", "mixedout", "mixedin2", "mixedout2"} -> [ok |-> FALSE, inp |-> <<>>, out |-> <<>>]   \* (ptrfunc: a pointer to a function is not a function)
     [] d.special \in {"S1", "S2", "S3", "S4", "S5", "S6", "S7", "S8"} -> Static(d.special)
     [] d.special = "variadic" ->
          LET vs == SideValues(d.inp) n == Len(vs) IN
@@ -88,6 +88,8 @@ C14 == rec.ev = "obs" =>
    /\ rec.panic = ""                  \* a rejection is an error value, never a panic
    /\ rec.ok = e.ok
    /\ e.ok => (rec.inp = e.inp /\ rec.out = e.out)
+   \* what a function reports does not change by being used: the same lists after it took part in a Call
+   /\ e.ok => (rec.inp2 = e.inp /\ rec.out2 = e.out)
 Accepted == TLCGet("stats").diameter - 1 = Len(Trace)
 Pos == [line |-> l, sid |-> 0]
 =============================================================================
